@@ -19,7 +19,7 @@ const (
 	// by C12 for BODYSTRUCTURE). For FETCH the numbering is wrong where RFC 3501 has one more level: a message whose
 	// own Content-Type is message/rfc822 (its parts are 1.1 .. 1.n, gluon serves them as 1 .. n) and a message/rfc822
 	// part that embeds a message/rfc822 message.
-	kfEmbeddedMultipart = "C12-embedded-multipart-as-multipart"
+	kfEmbeddedMultipart = "C13-embedded-multipart-part-numbering"
 	// rfc822 (*Section).Part ignores the rest of the path once it stands on a section without children.
 	kfBelowChildless = "C13-part-path-below-childless-part"
 	// BODY[HEADER] / BODY[TEXT] / BODY[HEADER.FIELDS] of a message whose own Content-Type is message/rfc822 address the
